@@ -34,10 +34,20 @@ struct RecSink {
 struct Agent {
 	RecSink *sink_;
 	frg::va_struct *vsp_;
+	struct LocaleKind { const char *sep, *grouping, *name; };
+	// localeconv()-style grouping strings: sizes from the least significant group on, the last one repeats
+	static LocaleKind locale_kind(int k) {
+		switch(k) {
+		case 2: return {",", "\3\2", "en_IN-like (\",\", last group 3, then groups of 2)"};
+		case 3: return {"\xe2\x80\xaf", "\2\3\4", "(3-byte separator, groups 2, 3, then 4)"};
+		case 4: return {".", "\1", "(\".\", groups of 1)"};
+		default: return {",", "\3", "en_US-like (\",\", groups of 3)"};
+		}
+	}
 	bool *unexpected_terminal;
 	bool lenient = false;      // ignore unknown conversion characters instead of reporting an error (both kinds of agent exist)
 	bool clamp_output = false; // for inputs with astronomically large widths: expand at most 1000 pad characters (the parse is what is under test)
-	bool en_locale = false;    // hand do_printf_ints the locale_options of an en_US-like locale (".", ",", groups of 3) instead of the default ones
+	int en_locale = 0;         // hand do_printf_ints the locale_options of locale_kind(en_locale) instead of the default ones (1: en_US-like: ".", ",", groups of 3)
 	frg::expected<frg::format_error> operator()(char c) { sink_->append(c); return frg::success; }
 	frg::expected<frg::format_error> operator()(const char *c, size_t n) { sink_->append(c, n); return frg::success; }
 	frg::expected<frg::format_error> operator()(char t, frg::format_options opts, frg::printf_size_mod szmod) {
@@ -45,7 +55,7 @@ struct Agent {
 		switch(t) {
 		case 'c': case 'p': case 's': frg::do_printf_chars(*sink_, t, opts, szmod, vsp_); break;
 		case 'd': case 'i': case 'o': case 'x': case 'X': case 'b': case 'B': case 'u':
-			if(en_locale) frg::do_printf_ints(*sink_, t, opts, szmod, vsp_, frg::locale_options(".", ",", "\3"));
+			if(en_locale) frg::do_printf_ints(*sink_, t, opts, szmod, vsp_, frg::locale_options(".", locale_kind(en_locale).sep, locale_kind(en_locale).grouping));
 			else frg::do_printf_ints(*sink_, t, opts, szmod, vsp_);
 			break;
 		default: *unexpected_terminal = true; if(lenient) break; return frg::format_error::agent_error; // a strict agent reports the unknown conversion, a lenient one ignores it
@@ -87,7 +97,7 @@ struct ExactVaList {
 struct FriggResult { bool completed = false; bool panicked = false; bool agent_error = false; bool unexpected_terminal = false; std::string out, panic; };
 
 // fmt must point to a NUL-terminated string in a GuardedBuf (exact size)
-inline FriggResult run_frigg(const char *fmt, const std::vector<uint64_t> &slots, bool clamp_output = false, bool lenient = false, bool en_locale = false) {
+inline FriggResult run_frigg(const char *fmt, const std::vector<uint64_t> &slots, bool clamp_output = false, bool lenient = false, int en_locale = 0) {
 	FriggResult r;
 	ExactVaList ev(slots);
 	frg::va_struct vs;
